@@ -6,6 +6,7 @@ import KdVerif.Gen.Decoders
 import KdVerif.Gen.Host
 import KdVerif.Proofs.PyIRFlTraces
 import KdVerif.Gen.PyIRFl
+import KdVerif.Proofs.PyIRCsPipeline
 /-
   C13 — trace filters commute with decoding and leave no residue in the parser.
 
@@ -629,5 +630,64 @@ example : PyIRFl.runFilterProcessCallback Gen.PyIRFl.prog { filterProcess := som
     = .ok (.bool true) := by decide
 example : PyIRFl.runFilterProcessCallback Gen.PyIRFl.prog { filterProcess := some "launchd" }
     { threadsPids := [(7, 43)], pidsNames := [(42, "launchd")] } (irEv 1 7 0) = .ok (.bool false) := by decide
+
+/-! ### translation tie of `callstacks()`: the request model is the interpreted source
+
+  `PyKdebugParser.callstacks` and `CallstacksParser` (`__init__`, `insert_image`, the whole `feed_generator`) are translated
+  from the source text into the IR of `Model/PyIRCs` on every run; `C15.source_is_expected_ir` / `C15.prog_is_expected`
+  (checked by the C15 check, which rebuilds them against the working tree) state that the generated program IS
+  `PyIRCs.Expected.prog`.  Here: that program, interpreted, is the request model `TracePipeline.callstacks` this file's
+  `callstacks_depends_on_cfg_only` / `callstacks_idempotent` are about. -/
+
+/-- **callstacks_request_rests_on_ir.**  For every object state (whatever its two image lists hold from earlier requests)
+    and every dump: the expected IR of `callstacks()` — `self.dyld_addresses.clear(); self.dyld_uuids.clear();
+    callstacks_parser = CallstacksParser(self.dyld_addresses, self.dyld_uuids); return
+    callstacks_parser.feed_generator(self.traces(kdebug, trace_codes))` with the translated `feed_generator` — run by the
+    interpreter over the trace objects of what the `traces` model yields for this request (`PyIRCs.csTraceOf`) delivers
+    exactly the callstacks of `TracePipeline.callstacks`, ends with the same exception (the callstack parser's, else the
+    trace generator's own) and leaves the object's two lists as the model says.  So "the image lists are reset per
+    request" of the model is the two `clear()` calls of the source, and `callstackFeed` is the translated `feed_generator`. -/
+theorem callstacks_request_rests_on_ir (env : Env) (obj : Obj) (d : Dump) :
+    PyIRCs.runRequest PyIRCs.Expected.prog ((traces env obj d).1.traces.map (fun p => PyIRCs.csTraceOf p.1))
+        (traces env obj d).1.err obj.images =
+      ((callstacks env obj d).1.callstacks.map (fun c => PyIRCs.Val.callstack (PyIRCs.ofCallstack c)),
+       match (callstacks env obj d).1.err with
+       | some e => .error e
+       | none => .ok (callstacks env obj d).2.images) :=
+  PyIRCs.runRequest_expected_pipeline env obj d
+
+/-- A code table with the image announcement and the sampler's records (the generated decoder of `DYLD_uuid_map_a`). -/
+def csEnv : Env :=
+  { codes := fun k => [(0x1f050008, "DYLD_uuid_map_a"), (0x25010000, "PERF_Event"), (0x2502000c, "PERF_STK_UHdr"),
+                       (0x25020010, "PERF_STK_UData")].lookup k,
+    host := Gen.Host.host, tables := Gen.Decoders.tables,
+    decoders := Gen.Decoders.decoders.filter (fun d => d.name == "DYLD_uuid_map_a"),
+    dec := fun bs => .ok (String.ofList (bs.map Char.ofNat)) }
+
+/-- Two images announced in descending order (0x30, 0x10), then a sample with the frames 0x5, 0x11, 0x31. -/
+def csDump : Dump :=
+  { threadMap := [(5, 1, "p")],
+    events := [rec' 1 5 0x1f050008 0 [0, 0, 0x30, 0] [3], rec' 2 5 0x1f050008 0 [0, 0, 0x10, 0] [1],
+               rec' 3 5 0x25010000 1 [8, 0, 0, 0] [], rec' 4 5 0x2502000c 0 [0, 3, 0, 0] [],
+               rec' 5 5 0x25020010 0 [0x5, 0x11, 0x31, 0] [], rec' 6 5 0x25010000 2 [0, 0, 0, 0] []] }
+
+/-- an object that still holds two images of an earlier request (0x4 and 0x12 would attribute all three frames) -/
+def staleObj : Obj := { images := ⟨[0x4, 0x12], [[0xaa], [0xbb]]⟩ }
+
+/-- non-vacuity: the model's request on the stale object delivers the callstack attributed against THIS dump's images
+    only; the trace objects the interpreter is run on; and the interpreted `callstacks()` gives exactly that (computed,
+    not via the theorem). -/
+example :
+    (callstacks csEnv staleObj csDump).1.callstacks =
+      [⟨3, 5, [⟨0x5, none⟩, ⟨0x11, some ([1], 1)⟩, ⟨0x31, some ([3], 1)⟩]⟩] ∧
+    (callstacks csEnv staleObj csDump).2.images = ⟨[0x10, 0x30], [[1], [3]]⟩ ∧
+    (traces csEnv staleObj csDump).1.traces.map (fun p => PyIRCs.csTraceOf p.1) =
+      [.image 0x30 [3], .image 0x10 [1], .sample [⟨3, 5⟩, ⟨4, 5⟩, ⟨5, 5⟩, ⟨6, 5⟩] (some [0x5, 0x11, 0x31])] ∧
+    PyIRCs.runRequest PyIRCs.Expected.prog
+        [.image 0x30 [3], .image 0x10 [1], .sample [⟨3, 5⟩, ⟨4, 5⟩, ⟨5, 5⟩, ⟨6, 5⟩] (some [0x5, 0x11, 0x31])] none
+        staleObj.images =
+      ([.callstack ⟨3, 5, [⟨0x5, none, none⟩, ⟨0x11, some [1], some 1⟩, ⟨0x31, some [3], some 1⟩]⟩],
+       .ok ⟨[0x10, 0x30], [[1], [3]]⟩) := by
+  decide +kernel
 
 end KdVerif.C13
